@@ -890,6 +890,10 @@ class Exec(Ops):
         env.set(tg.id, v)
     elif isinstance(tg, (ast.Tuple, ast.List)):
       vv = self.deref(v)
+      if isinstance(vv, SV) and isinstance(vv.sort, MapOf):
+        # unpacking a dict iterates its keys (insertion order)
+        ks = vv.sort.keys(vv.t)
+        vv = SV(vv.sort.keyseq, ks)
       if isinstance(vv, SV) and isinstance(vv.sort, SeqOf):
         n = len(tg.elts)
         self.oblige(vv.sort.len(vv.t) == n, 'safety:unpack')
@@ -986,7 +990,16 @@ class Exec(Ops):
 
   def s_FunctionDef(self, st, env):
     nested_spec = self.spec.nested.get(st.name)
-    env.set(st.name, Closure(st, env, st.name, nested_spec))
+    fn = Closure(st, env, st.name, nested_spec)
+    # decorators the sidecar binds to a Handler are applied (innermost first); all others are transparent here
+    for dec in reversed(st.decorator_list):
+      try:
+        d = self.eval(dec, env)
+      except OutsideSubset:
+        continue
+      if isinstance(d, Handler):
+        fn = d.fn(self, [fn], {})
+    env.set(st.name, fn)
 
   def s_Delete(self, st, env):
     for tg in st.targets:
